@@ -385,12 +385,14 @@ def synth_loop(text=None, path=None, inv_deg=1, cand=None, seed=0, nmax=5, setti
 
 
 def repair_piecewise(text=None, path=None, inv_deg=1, mode="ksym", cand=None, seed=0, nmax=5, settings=None):
-    """In-memory repair used only for attribution: the same synthesis call, but the closed form is replaced by the
-    *pointwise* evaluation of the very summation `solve_rec_by_summing` is given,
-        f(n) = k^n·q0 + Σ_{j<n} k^j · inhom(n − j),
-    with the solved effective part `inhom` kept as it is (its `Piecewise` initial-value cases intact) instead of
-    `summation(...)` followed by `without_piecewise`.  Returns per solution the repaired values at the sample point
-    and whether the solved effective part contains a Piecewise in n."""
+    """In-memory repair used only for attribution: the same synthesis call; to the values of the *returned* closed
+    form (whatever the tree computes) exactly that part of the summation
+        f(n) = k^n·q0 + Σ_{j<n} k^j · inhom(n − j)
+    is added back which `without_piecewise` removed:  Σ_{j<n} k^j · (inhom(n−j) − inhom_general(n−j)), where
+    `inhom` is the solved effective part as `get_invariants` computes it (Piecewise initial-value cases intact) and
+    `inhom_general` its last branch.  Nothing else of the code's result is touched, so any other defect of the
+    summation survives the repair.  Returns per solution the repaired values at the sample point and whether the
+    solved effective part contains a Piecewise in n."""
     import sympy
     _reset_settings(settings)
     from program import normalize_program
@@ -431,15 +433,27 @@ def repair_piecewise(text=None, path=None, inv_deg=1, mode="ksym", cand=None, se
         kv = _subs_by_name(kx, values)
         q0v = _subs_by_name(q0, values)
         inh = _subs_by_name(inhom, values)
+        # what the stripping removed: delta(m) = inhom(m) with its cases - inhom(m) general branch only
+        from utils import without_piecewise
+        inh_gen = without_piecewise(inh)
+
+        def at(expr, m):
+            e = expr
+            for ns in nsyms:
+                e = e.xreplace({ns: sympy.Integer(m)})
+            e = _subs_by_name(e, {"n": Fr(m)})
+            return sympy.nsimplify(sympy.simplify(e))
+        delta = {m: at(inh, m) - at(inh_gen, m) for m in range(1, nmax + 1)}
+        subs0 = {k_: fr_str(v) for k_, v in values.items()}
         vals = []
         for n_ in range(nmax + 1):
-            tot = kv ** n_ * q0v
+            tag, fv = eval_closed_form(sol[1], n_, subs0)
+            if tag != "q":
+                vals.append(f"{tag}:{fv}")
+                continue
+            tot = _rat(Fr(fv))
             for j in range(n_):
-                term = inh
-                for ns in nsyms:
-                    term = term.xreplace({ns: sympy.Integer(n_ - j)})
-                term = _subs_by_name(term, {"n": Fr(n_ - j)})
-                tot += kv ** j * term
+                tot += kv ** j * delta[n_ - j]
             tot = sympy.nsimplify(sympy.simplify(tot))
             vals.append(f"{tot.p}/{tot.q}" if tot.is_Rational else str(tot))
         pvars = {str(v) for v in program.variables}
